@@ -27,6 +27,8 @@ package resample
 //@ func precomputeDistances(ls, df) (total, dists)
 //@   floats abstract
 //@   purefuncs
+//@   allocates
+//@   function
 //@   requires df != nil && len(ls) >= 1
 //@   modifies nothing
 //@   ensures len(dists) == len(ls) - 1 && fresh(dists)
@@ -67,3 +69,20 @@ package resample
 //@   ensures totalPoints >= 1 && len(ls) >= 2 ==> len(result) == totalPoints
 //@   ensures totalPoints >= 1 && len(ls) >= 2 ==> (same(result[0][0], old(ls[0][0])) || result[0][0] == old(ls[0][0])) && (same(result[0][1], old(ls[0][1])) || result[0][1] == old(ls[0][1]))
 //@   ensures totalPoints >= 2 && len(ls) >= 2 ==> (same(result[totalPoints-1][0], old(ls[len(ls)-1][0])) || result[totalPoints-1][0] == old(ls[len(ls)-1][0])) && (same(result[totalPoints-1][1], old(ls[len(ls)-1][1])) || result[totalPoints-1][1] == old(ls[len(ls)-1][1]))
+
+// ToInterval: a non-positive interval gives nil (and only that returns early), a line with fewer than
+// two vertices comes back as it is, every other line gets floor(length/d)+1 points where length is the
+// left-fold total of precomputeDistances (given the assumption listed on resample). The conversion
+// int(total/dist) is outside any range for NaN/Inf/huge quotients (a NaN interval passes the `dist <= 0` guard): that it lands in 0..2^30-1 is a
+// precondition over the same expression the code evaluates.
+//@ func ToInterval(ls, df, dist)
+//@   floats abstract
+//@   purefuncs
+//@   requires df != nil
+//@   requires !(dist <= 0.0) && len(ls) >= 2 ==> int(precomputeDistances(ls, df) / dist) + 1 >= 1 && int(precomputeDistances(ls, df) / dist) + 1 <= 1073741824
+//@   return 1: dist <= 0.0
+//@   return 2: len(ls) <= 1
+//@   return 3: ret
+//@   ensures dist <= 0.0 ==> result == nil
+//@   ensures !(dist <= 0.0) && len(ls) <= 1 ==> same(result, ls)
+//@   ensures !(dist <= 0.0) && len(ls) >= 2 ==> len(result) == int(old(precomputeDistances(ls, df)) / dist) + 1
